@@ -51,6 +51,15 @@ def showU8 (op : String) (e : Option Err) (cps : List Nat) (eNoCb : Option Err) 
   (builds.map (fun b => [s!"P {op} {b} rc={rcName e} cps={cpsStr cps}", s!"P {op} {b} nocb=1 rc={rcName eNoCb}"])).flatten ++
     [s!"P {op} same=1"]
 
+def stopName : Option Stop → String
+  | none => "OK"
+  | some (.err e) => e.name
+  | some .callback => "AWS_ERROR_INVALID_ARGUMENT"      -- what the harness callback raises when told to fail
+
+/-- callback installed and failing on its `k`-th call -/
+def showU8Fail (op : String) (k : Nat) (r : Option Stop × List Nat) : List String :=
+  builds.map (fun b => s!"P {op} {b} failcb={k} rc={stopName r.1} cps={cpsStr r.2}")
+
 /-- `u8all`: the harness runs every chunking in both callback modes and reports the one-shot
 result; by `c05_utf8_chunking` / `c05_utf8_chunking_nocb` the model has nothing else to say -/
 def showU8All (x : List UInt8) : List String :=
@@ -58,7 +67,10 @@ def showU8All (x : List UInt8) : List String :=
   let en := decodeUtf8NoCb x
   let n := if x.length == 0 then 1 else 2 ^ (x.length - 1)
   (builds.map (fun b => [s!"P u8all {b} rc={rcName e} cps={cpsStr cps} chunkings={n} chunkdep=0",
-                         s!"P u8all {b} nocb=1 rc={rcName en} chunkdep=0"])).flatten ++ ["P u8all same=1"]
+                         s!"P u8all {b} nocb=1 rc={rcName en} chunkdep=0",
+                         s!"P u8all {b} failcb=0 rc={stopName (decodeUtf8Fail 0 x).1} cps={cpsStr (decodeUtf8Fail 0 x).2} chunkdep=0",
+                         s!"P u8all {b} failcb=1 rc={stopName (decodeUtf8Fail 1 x).1} cps={cpsStr (decodeUtf8Fail 1 x).2} chunkdep=0"])).flatten ++
+    ["P u8all same=1"]
 
 def parseChunks : List String → Option (List (List UInt8))
   | [] => some []
@@ -120,6 +132,9 @@ def step (s : St) (t : List String) : St × List String :=
   | ["u8one", x] => match parseHex? x with
     | some x => let (e, cps) := decodeUtf8 x; (s, showU8 "u8one" e cps (decodeUtf8NoCb x))
     | none => bad
+  | "u8f" :: k :: chunks => match k.toNat?, parseChunks chunks with
+    | some k, some cs => (s, showU8Fail "u8f" k (runChunksFail k Utf8.init cs) ++ ["P u8f same=1"])
+    | _, _ => bad
   | ["u8all", x] => match parseHex? x with
     | some x => if x.length > 16 then bad else (s, showU8All x)
     | none => bad
